@@ -29,8 +29,12 @@ for x in sorted(os.listdir(wt + "/SEED")):
     print(pid, x, "CONFIRMED" if ok else "REJECTED", ran, files[-1] if files else "")
     if not ok:
         print((d1.stderr or d1.stdout)[-300:]); continue
-    dst = "/verif/seeded/%s-%s" % (pid, x)
+    letters = "abcdefghijklmnopqrstuvwxyz"
+    used = {d.split("-")[1] for d in os.listdir("/verif/seeded") + os.listdir("/verif/seeded/_obsolete") if d.startswith(pid + "-")}
+    name = next(l for l in letters if l not in used)
+    dst = "/verif/seeded/%s-%s" % (pid, name)
     os.makedirs(dst, exist_ok=True)
+    print("   kept as", dst)
     shutil.copy(sd + "/patch.diff", dst); shutil.copy(sd + "/demo.py", dst)
     meta = json.load(open(sd + "/meta.json"))
     meta = {"property": pid, "summary": meta.get("summary"), "needs": meta.get("needs"),
